@@ -70,6 +70,15 @@ def gen_object(rnd):
         n = rnd.pick([0, 1, 2, 3, 8, rnd.randint(0, 50)])
         fr = rnd.pick([0, 1, 1600000000, rnd.getrandbits(31)])
         un = fr + n * step + rnd.pick([0, 0, rnd.randint(0, step - 1)])
+        if rnd.chance(0.25):
+            # spans of 2^31 seconds and more (the difference does not fit an int32 Duration)
+            step = rnd.pick([2 ** 31 - 1, 2 ** 30, 10 ** 9, 2 ** 29 + 1, 715827883])
+            fr = rnd.pick([0, 1, 10 ** 9, rnd.getrandbits(30)])
+            n = rnd.randint(1, 4)
+            while fr + n * step >= 2 ** 32:
+                n -= 1
+            n = max(n, 0)
+            un = min(fr + n * step + rnd.pick([0, 0, 1, step - 1]), 2 ** 32 - 1)
         if un >= 2 ** 32:
             fr, un = 0, n * step
             if un >= 2 ** 32:
